@@ -18,6 +18,9 @@ scenario `same:<doc>`    lint A (on token i) is ignored; lint B on token j of th
 scenario `edit:<doc>`    lint A on token i of document 1 is ignored; document 2 is document 1 with the characters of another
                          token k replaced (same length) and A re-reported at the same place: if token k lies more than two
                          characters away from A's span, A is still dropped.
+                         If instead token k lies inside A's windows and its text changed, A is reported again.
+scenario `append:<doc>`  lints on tokens i and j are ignored in two separate lists, the second is appended to the first (what an import
+                         does): both stay hidden, a lint with a different message does not become hidden.
 scenario `shift:<doc>`   document 2 is `<word> <space>` + document 1; A re-reported shifted: if A's span starts at >= 2 in
                          document 1 (so its two-character prequel window lies in the untouched text), A is still dropped.
 
@@ -164,6 +167,7 @@ def run(mir_path, scenario, src_dir):
             r"^<(hashbrown::)?HashSet<u64(, .*)?> as Default>::default$|^(hashbrown::)?HashSet::<u64(, .*)?>::new$": set_new,
             r"^(hashbrown::)?HashSet::<u64(, .*)?>::insert$": set_insert,
             r"^(hashbrown::)?HashSet::<u64(, .*)?>::contains::<": set_contains,
+            r"^<(hashbrown::)?HashSet<u64(, .*)?> as Extend<u64>>::extend::<": lambda it_, c, a: [set_insert(it_, c, [a[0], x]) for x in list(deref(a[1]).items)] and () or (),
             r"^(hashbrown::)?HashSet::<u64(, .*)?>::is_empty$": lambda it_, c, a: z3.BoolVal(len(deref(a[0]).items) == 0),
         }
         it = Interp(raw, MODELS, ctx, resolve, enums=enums)
@@ -175,6 +179,11 @@ def run(mir_path, scenario, src_dir):
             return c[0]
 
         f_ignore, f_remove = find("::ignore_lint", "IgnoredLints"), find("::remove_ignored", "IgnoredLints")
+        f_new = find("::new", "IgnoredLints")
+
+        def new_list():
+            # the real constructor: whatever container the list uses is created by harper's own code
+            return Cell(it.call_fn(f_new, []))
 
         def letters(tag, n):
             cs = [z3.BitVec(f"{tag}{j}", 32) for j in range(n)]
@@ -259,7 +268,7 @@ def run(mir_path, scenario, src_dir):
             ctx.assume(z3.ULT(sel_i, n))
             i = ctx.choose(sel_i, list(range(n)))
             A, fa = mk_lint("A", d1["spans"][i])
-            ign = Cell(Adt("IgnoredLints", [SetObj()]))
+            ign = new_list()
             it.call_fn(f_ignore, [Ref(ign), Ref(Cell(A)), Ref(Cell(d1["doc"]))])
             info["ignored_token"] = i
             if mode == "same":
@@ -295,12 +304,41 @@ def run(mir_path, scenario, src_dir):
                 a, b = d1["spans"][k]
                 far = b <= s0 - 2 or a >= max(e0, s0 + 4) + 0
                 # "within two characters": the prequel window is [s0-2, s0), the sequel window [s0+2, s0+4) and the span itself
-                if not far:
-                    raise PathEnd()
                 A2, _ = mk_lint("A2", d2["spans"][i], like=fa)
                 lints = VecObj([A2])
                 it.call_fn(f_remove, [Ref(ign), Ref(Cell(lints)), Ref(Cell(d2["doc"]))])
-                claims.append((z3.BoolVal(len(lints.elems) == 0), "an ignored lint is reported again after an edit more than two characters away from it"))
+                hidden = len(lints.elems) == 0
+                if far:
+                    claims.append((z3.BoolVal(hidden), "an ignored lint is reported again after an edit more than two characters away from it"))
+                else:
+                    # the edited word lies inside the lint's windows: a lint whose surrounding words differ is a different lint
+                    inside = max(a, s0 - 2 if s0 >= 2 else s0) < min(b, s0) or max(a, s0 + 2) < min(b, s0 + 4)
+                    if not inside:
+                        raise PathEnd()
+                    changed = z3.Or(*[x != y for x, y in zip(d1["chars"][k], d2["chars"][k])])
+                    claims.append((z3.Implies(changed, z3.BoolVal(not hidden)),
+                                   "a lint stays hidden although a word within two characters of it was changed"))
+            elif mode == "append":
+                # two ignore lists (one lint ignored in each, on tokens i and j), the second appended to the first - what importing
+                # an exported list does: both lints are hidden afterwards, a third lint that differs from both is not
+                f_append = find("::append", "IgnoredLints")
+                ctx.assume(z3.ULT(sel_j, n))
+                j = ctx.choose(sel_j, list(range(n)))
+                B, fb = mk_lint("B", d1["spans"][j])
+                ign2 = new_list()
+                it.call_fn(f_ignore, [Ref(ign2), Ref(Cell(B)), Ref(Cell(d1["doc"]))])
+                it.call_fn(f_append, [Ref(ign), ign2.v])
+                info["other_token"] = j
+                for nm, (L_, f_) in (("first", (A, fa)), ("second", (B, fb))):
+                    L2, _ = mk_lint("X" + nm, (L_.fields[0].fields[0].t, L_.fields[0].fields[1].t), like=f_)
+                    lints = VecObj([L2])
+                    it.call_fn(f_remove, [Ref(ign), Ref(Cell(lints)), Ref(Cell(d1["doc"]))])
+                    claims.append((z3.BoolVal(len(lints.elems) == 0), f"after appending one ignore list to another, the lint ignored in the {nm} list is reported again"))
+                C, fc = mk_lint("C", d1["spans"][i])
+                lints = VecObj([C])
+                it.call_fn(f_remove, [Ref(ign), Ref(Cell(lints)), Ref(Cell(d1["doc"]))])
+                differs = z3.And(fc[1] != fa[1], fc[1] != fb[1])
+                claims.append((z3.Implies(differs, z3.BoolVal(len(lints.elems) == 1)), "after appending, a lint with another message than both ignored lints is hidden"))
             elif mode == "shift":
                 d2 = mk_doc(["w", "s"] + shape, "b")
                 docs.append(d2)
